@@ -75,6 +75,11 @@ var (
 
 func gzipZeros(n int) []byte { return Gzip(make([]byte, n)) }
 
+var (
+	bombOnce      sync.Once
+	bombDecodable []byte
+)
+
 // gzipValidMessage compresses a well-formed message whose encoding has a
 // little more than n bytes (so that only the size decides its fate).
 func gzipValidMessage(n int) []byte {
@@ -212,6 +217,18 @@ func c09HostileBody(k c09Case) (body []byte, encoding string, declaredBig bool) 
 		b[0] = byte(fl)
 		copy(b[1:5], []byte{0x04, 0x00, 0x00, 0x00})
 		return b, "", true
+	case "gzip-bomb-decodable": // inflates to 8 MiB of which every odd-length prefix (N is even) is itself a valid message
+		bombOnce.Do(func() {
+			m := &BV{Value: []byte("nine-byte")} // 11 bytes encoded
+			u := make([]byte, 0, 8<<20)
+			for len(u)+2 <= 8<<20-11 {
+				u = append(u, 15<<3, 1)
+			}
+			m.ProtoReflect().SetUnknown(u)
+			raw, _ := proto.Marshal(m)
+			bombDecodable = Gzip(raw)
+		})
+		return bombDecodable, "gzip", true
 	case "rle-small": // a dozen bytes on the wire that a custom algorithm without an expansion bound inflates to N+1
 		m, _ := proto.Marshal(&BV{Value: bytes.Repeat([]byte{'x'}, k.N)})
 		return RLEEncode(m), "rle", false
@@ -424,7 +441,7 @@ func c09Cases(thorough bool) (normal, hostile []c09Case) {
 				}
 				normal = append(normal, c09Case{Proto: p, Kind: streamKind, Client: client, N: n, Sizes: []int{okSize, 0, okSize}})
 				normal = append(normal, c09Case{Proto: p, Kind: streamKind, Client: client, N: n, Sizes: []int{}})
-				for _, hk := range []string{"rle-small", "gzip-small", "gzip-bomb", "lie-huge", "lie-64m", "content-length-lie", "shared-option", "lie-64m-flag02", "lie-64m-flag80", "lie-64m-flag04", "lie-64m-flag03"} {
+				for _, hk := range []string{"rle-small", "gzip-small", "gzip-bomb", "gzip-bomb-decodable", "lie-huge", "lie-64m", "content-length-lie", "shared-option", "lie-64m-flag02", "lie-64m-flag80", "lie-64m-flag04", "lie-64m-flag03"} {
 					for _, kind := range []Kind{KUnary, streamKind} {
 						hostile = append(hostile, c09Case{Proto: p, Kind: kind, Client: client, N: n, Hostile: hk})
 					}
